@@ -27,32 +27,27 @@ func runC16(c *core.Ctx) {
 	const rel = "traversal"
 
 	c.Rule("C16.relink", "in the transform functions of package traversal a node loaded from a link (result of LinkSystem.Load/Fill via a builder, or of the loadLink helper) - and anything rebuilt from it - is never handed to AssignNode / Assemble* of the enclosing container: it re-enters the parent only through AssignLink of the link returned by LinkSystem.Store", 2)
-	for _, name := range []string{"focusedTransform", "walk_transform_iterateList", "walk_transform_iterateMap"} {
-		fn := p.Func(rel, "Progress", name)
-		if fn == nil {
-			c.Undecided(rel+".Progress."+name, "-", "not found")
-			continue
-		}
-		key := core.FuncKey(fn)
-		// loaded values: results of loadLink, and Build() of a builder that was handed to Fill
+	tr := newTravRoles(p)
+	tfns := tr.transformFns()
+	if len(tfns) < 3 {
+		c.Undecided(rel+"#transform-functions", "-", fmt.Sprintf("only %d recursive functions carrying a TransformFn found in package traversal", len(tfns)))
+	}
+	for _, tf := range tfns {
+		fn := tf.fn
+		key := rel + "." + tf.label
+		// loaded values: results of a loading helper, and Build() of a builder that was handed to Fill
 		isLoaded := func(v ssa.Value) (bool, string) {
 			for w := range core.BackSlice(v, core.SliceOpts{Stores: true, ThroughCallsIf: func(cl *ssa.Call) bool {
 				// through the recursive transform (the rebuilt block is still block content)
-				if cal := cl.Call.StaticCallee(); cal != nil {
-					switch cal.Name() {
-					case "WalkTransforming", "walkTransforming":
-						return true
-					}
-				}
-				return false
+				return tr.isTransformCallee(cl.Call.StaticCallee())
 			}}) {
 				if cl, ok := w.(*ssa.Call); ok {
-					if cal := cl.Call.StaticCallee(); cal != nil && cal.Name() == "loadLink" {
-						return true, "loadLink"
+					if cal := cl.Call.StaticCallee(); cal != nil && tr.loadsBlock(cal) {
+						return true, "the loading helper " + cal.Name()
 					}
 					if cl.Call.IsInvoke() && cl.Call.Method.Name() == "Build" {
 						// builder filled from a link?
-						for _, ci := range core.Calls(fn) {
+						for _, ci := range core.CallsR(fn) {
 							if core.IsMethod(ci, "", "LinkSystem", "Fill") || core.IsMethod(ci, "", "LinkSystem", "Load") {
 								for _, a := range ci.Common().Args {
 									if core.Strip(a) == core.Strip(cl.Call.Value) {
@@ -67,9 +62,12 @@ func runC16(c *core.Ctx) {
 			return false, ""
 		}
 		n := 0
-		for _, ci := range core.Calls(fn) {
+		for _, ci := range core.CallsR(fn) {
 			cc := ci.Common()
 			if !cc.IsInvoke() || cc.Method.Name() != "AssignNode" || len(cc.Args) != 1 {
+				continue
+			}
+			if g := ci.Parent(); g != fn && tr.recursive(g) {
 				continue
 			}
 			n++
@@ -83,11 +81,15 @@ func runC16(c *core.Ctx) {
 	}
 
 	c.Rule("C16.storeerr", "in focusedTransform the link handed to AssignLink is result 0 of LinkSystem.Store called with the original link's prototype, and AssignLink is reachable only over the nil edge of that Store's error", 2)
-	if fn := p.Func(rel, "Progress", "focusedTransform"); fn != nil {
-		key := core.FuncKey(fn)
-		for _, ci := range core.Calls(fn) {
+	for _, tf := range tfns {
+		fn := tf.fn
+		key := rel + "." + tf.label
+		for _, ci := range core.CallsR(fn) {
 			cc := ci.Common()
 			if !cc.IsInvoke() || cc.Method.Name() != "AssignLink" {
+				continue
+			}
+			if g := ci.Parent(); g != fn && tr.recursive(g) {
 				continue
 			}
 			var store *ssa.Call
@@ -108,13 +110,11 @@ func runC16(c *core.Ctx) {
 			c.Check(len(nilEdges) > 0 && !reached, key+"#store-error-tested", p.Pos(store.Pos()), "AssignLink only after a successful Store", "AssignLink is reachable without the error of LinkSystem.Store having been tested nil: a failed block write still yields a 'successful' transform whose new root cannot be loaded", p.Witness(path)...)
 			// prototype of the original link
 			protoOK := false
-			if pr, ok := core.Strip(store.Call.Args[2]).(*ssa.Call); ok && pr.Call.IsInvoke() && pr.Call.Method.Name() == "Prototype" {
+			if pr, ok := core.RegionOf(fn).Canon(store.Call.Args[2]).(*ssa.Call); ok && pr.Call.IsInvoke() && pr.Call.Method.Name() == "Prototype" {
 				protoOK = true
 			}
 			c.Check(protoOK, key+"#store-same-prototype", p.Pos(store.Pos()), "stored under the original link's prototype", "the rebuilt block is not stored under the prototype of the link it replaces")
 		}
-	} else {
-		c.Undecided(rel+".Progress.focusedTransform", "-", "not found")
 	}
 
 	c.Rule("C16.protocol", "the transform functions keep to the map-assembler protocol on every path: after a key was assigned through AssembleKey the next call on that assembler is AssembleValue (C12.client restricted to package traversal)", 4)
@@ -129,12 +129,9 @@ func runC16(c *core.Ctx) {
 	}
 
 	c.Rule("C16.copyall", "in the rebuild loops of the transform functions every path from the iterator's Next() through one iteration to the next iteration (or the loop exit) passes at least one value assembly - AssignNode on AssembleValue(), or a recursive transform into AssembleValue() - except the documented delete (end of path and the replacement is nil); no sibling is silently dropped", 4)
-	for _, name := range []string{"focusedTransform", "walk_transform_iterateList", "walk_transform_iterateMap"} {
-		fn := p.Func(rel, "Progress", name)
-		if fn == nil {
-			continue
-		}
-		key := core.FuncKey(fn)
+	for _, tf := range tfns {
+		fn := tf.fn
+		key := rel + "." + tf.label
 		n := 0
 		for _, ci := range core.Calls(fn) {
 			cv := core.CallValue(ci)
@@ -227,17 +224,33 @@ func runC16(c *core.Ctx) {
 	}
 
 	c.Rule("C16.perchild", "in the transforming walk the selector handed to the recursive transform of a child is result 0 of Explore called in the same loop iteration with that child's own segment (never a selector computed for a sibling)", 2)
-	for _, name := range []string{"walk_transform_iterateList", "walk_transform_iterateMap"} {
-		fn := p.Func(rel, "Progress", name)
-		if fn == nil {
-			c.Undecided(rel+".Progress."+name, "-", "not found")
+	for _, tf := range tfns {
+		fn := tf.fn
+		if !tr.underWalkAPI(fn) {
 			continue
 		}
-		key := core.FuncKey(fn)
+		key := rel + "." + tf.label
 		n := 0
 		for _, ci := range core.Calls(fn) {
 			cal := ci.Common().StaticCallee()
-			if cal == nil || (cal.Name() != "WalkTransforming" && cal.Name() != "walkTransforming") {
+			if !tr.isTransformCallee(cal) {
+				continue
+			}
+			// only descents into a child: a call that hands on this activation's own node (the walk's entry stepping into
+			// its list / map rebuilding part) explores nothing
+			handsOwn := false
+			for _, a := range ci.Common().Args {
+				if !isNodeType(a.Type()) {
+					continue
+				}
+				for w := range core.BackSlice(a, core.SliceOpts{Stores: true}) {
+					if prm, isParam := w.(*ssa.Parameter); isParam && prm.Parent() == fn && isNodeType(prm.Type()) {
+						handsOwn = true
+					}
+				}
+				break
+			}
+			if handsOwn {
 				continue
 			}
 			n++
